@@ -209,3 +209,17 @@ Theorem C16_only_single_char_entries_is_no_checker :
     get_eos limit (Some lk) input = get_eos limit None input.
 Proof. exact get_eos_single. Qed.
 Print Assumptions C16_only_single_char_entries_is_no_checker.
+
+(* 8. The boolean predicates that every correspondence case evaluates on the IMPLEMENTATION's reported ranges are sound
+      for the Props used above: tiles_b gives a tiling (with the slices cut from the text), ends_after_terminator_b gives
+      ends_with_terminator. *)
+Theorem C16_tiles_b_sound :
+  forall rs data, tiles_b 0 data rs = true ->
+    tiles 0 data (with_slices data rs) /\ map (fun x => (fst (fst x), snd (fst x))) (with_slices data rs) = rs.
+Proof. exact (fun rs data => tiles_b_sound rs 0 data). Qed.
+Print Assumptions C16_tiles_b_sound.
+
+Theorem C16_ends_after_terminator_b_sound :
+  forall t, ends_after_terminator_b t = true -> ends_with_terminator t.
+Proof. exact ends_after_terminator_b_sound. Qed.
+Print Assumptions C16_ends_after_terminator_b_sound.
